@@ -24,6 +24,10 @@ WHY = {
                 "`str.replace`: outside the provenance terms (exit 2, no verdict)",
     "C19-r3-2": "productions registered by `rule(...)(helper(f))` at module level: the rule table can no longer be "
                 "read off decorators (every rule-base check exits 2, no verdict)",
+    "C18-r3-1": "`__eq__`/`__hash__` rebuilt on a helper that flattens nested values: interpreting the new `__eq__` on two "
+                "abstract instances exceeds the path budget (exit 2). An earlier version of the check reported this "
+                "seed through a syntactic mismatch of the attribute lists read by `__eq__` and `__hash__`; that rule "
+                "also fired on a behaviour-preserving refactoring and was replaced (10.7 item 26)",
     "C20-r3-2": "`datetime == date` is always False in the shared weekday helper; reported by C03 (weekday never the "
                 "reference day), which is the clause actually broken; C20 compares compositions and is not affected",
     "C20-r2-2": "initial scoring moved below the coverage filter so the depth cut keeps arbitrary sequences: a "
@@ -39,7 +43,7 @@ def main():
         if len(parts) == 2:
             ub[parts[0]] = int(parts[1])
     rows = []
-    for d in sorted(glob.glob(os.path.join(VERIF, "seeded", "*", ""))):
+    for d in sorted(glob.glob(os.path.join(VERIF, "seeded", "C*", ""))):
         m = json.load(open(d + "meta.json"))
         name = os.path.basename(d.rstrip("/"))
         notes = open(d + "notes.md").read() if os.path.exists(d + "notes.md") else ""
